@@ -175,6 +175,23 @@ def run(ck):
         else:
             db = canon_d(rnd_compound())
         same, okc = check_pair(da, db, "compound")
+        # siblings on the SAME registry, right after a conversion that succeeded: the source with one exponent changed
+        # (-1 <-> -2, 1 <-> 2) no longer has the target's dimensionality and must be refused (a memo keyed too coarsely,
+        # e.g. by hash — hash(-1) == hash(-2) — would answer from the neighbour's entry)
+        if same and okc:
+            ks = [k for k, v in da.items() if v in (-1, -2, 1, 2) and dim_of.get(k)]
+            if ks:
+                k0 = rng.choice(ks)
+                da2 = dict(da)
+                da2[k0] = F({-1: -2, -2: -1, 1: 2, 2: 1}[int(da[k0])])
+                check_pair(da2, db, "compound-sibling")
+                db2 = dict(db)
+                kb = [k for k, v in db.items() if v in (-1, -2, 1, 2) and dim_of.get(k)]
+                if kb:
+                    k1 = rng.choice(kb)
+                    db2[k1] = F({-1: -2, -2: -1, 1: 2, 2: 1}[int(db[k1])])
+                    check_pair(da, db2, "compound-sibling")
+                ck.case(key=("csibling", str(sorted(da2.items())), str(sorted(db.items()))))
         add(regk.case_factor(ureg, da, db), {"convert": [str(da), str(db)]}, ("cfactor", str(sorted(da.items())), str(sorted(db.items()))))
         add(regk.case_dim(ureg, da), {"dim_of": str(da)}, ("cdim", str(sorted(da.items()))))
         # symmetry
